@@ -179,7 +179,20 @@ class ImportedName(Name, Resolvable):
 
         value = None
         filename = self.scope.top.source.filename
-        if self.mname:
+        try:
+            value = ctx.project.get_nmodule(self.module, filename)
+        except ImportError:
+            if not self.mname:
+                logging.getLogger('supp.import').error(
+                    'Failed import of %s from %s', self.module, filename)
+                # value = FailedImport(self.module)
+        else:
+            if self.mname:
+                # from package import name: what the package binds itself
+                # comes before its submodule of that name
+                value = value.get_attr(ctx, self.mname)  # type: ignore[assignment]
+
+        if value is None and self.mname:
             if self.module.strip('.'):
                 module = self.module + '.' + self.mname
             else:
@@ -188,18 +201,8 @@ class ImportedName(Name, Resolvable):
             try:
                 value = ctx.project.get_nmodule(module, filename)
             except ImportError:
-                pass
-
-        if value is None:
-            try:
-                value = ctx.project.get_nmodule(self.module, filename)
-            except ImportError:
                 logging.getLogger('supp.import').error(
-                    'Failed import of %s from %s', self.module, filename)
-                # value = FailedImport(self.module)
-            else:
-                if self.mname:
-                    value = value.get_attr(ctx, self.mname)  # type: ignore[assignment]
+                    'Failed import of %s from %s', module, filename)
 
         if not self.mname and value:
             prefix = self.module + '.'
